@@ -25,8 +25,11 @@ type World struct {
 	Apps     []crypto.PrivateKey // applications staked at genesis
 	Spare    []crypto.PrivateKey // funded keys that are neither node nor app at genesis (may stake later)
 	Fresh    []crypto.PrivateKey // keys without any account at genesis (new recipients, strangers)
-	Victim   int                 // index (mod candidates) of the operator that is absent most often
-	entropy  int64
+	// Multi is a funded multisig-owned account and its member keys (in key order)
+	Multi        crypto.PublicKeyMultiSignature
+	MultiMembers []crypto.PrivateKey
+	Victim       int // index (mod candidates) of the operator that is absent most often
+	entropy      int64
 }
 
 // Chains used by generated nodes/apps (all supported by the default pocketcore params).
@@ -88,6 +91,12 @@ func GenWorld(rt *rapid.T) *World {
 		w.Fresh = append(w.Fresh, Key(fmt.Sprintf("fresh%d", i)))
 	}
 	fund(s.DAOOwner, 1_000_000_000)
+	nm := rapid.IntRange(2, 3).Draw(rt, "multisigMembers")
+	for i := 0; i < nm; i++ {
+		w.MultiMembers = append(w.MultiMembers, Key(fmt.Sprintf("multi-member%d", i)))
+	}
+	w.Multi = MultiKey(w.MultiMembers)
+	s.Accounts = append(s.Accounts, AccountSpec{Multi: &w.Multi, Balance: 3_000_000_000})
 	w.Victim = rapid.IntRange(0, 8).Draw(rt, "victim")
 	s.NodeParams.MaxValidators = int64(rapid.IntRange(2, 5).Draw(rt, "maxValidators"))
 	s.NodeParams.SessionBlockFrequency = int64(rapid.IntRange(2, 5).Draw(rt, "blocksPerSession"))
@@ -176,8 +185,6 @@ type GenTx struct {
 func drawKey(rt *rapid.T, label string, pool []crypto.PrivateKey) crypto.PrivateKey {
 	return pool[rapid.IntRange(0, len(pool)-1).Draw(rt, label)]
 }
-
-const DefaultFee = int64(10000)
 
 func (w *World) sign(msg sdk.ProtoMsg, signer crypto.PrivateKey, kind, desc string) GenTx {
 	e := w.NextEntropy()
@@ -456,4 +463,23 @@ func (h *History) Run(n *Node) []BlockResult {
 		out = append(out, n.RunBlock(b))
 	}
 	return out
+}
+
+// KeyNameAddr labels an address of the world (or its hex prefix).
+func (w *World) KeyNameAddr(a sdk.Address) string {
+	for _, pool := range [][]crypto.PrivateKey{w.Accounts, w.Nodes, w.Outputs, w.Apps, w.Spare, w.Fresh, {w.Spec.DAOOwner}} {
+		for _, k := range pool {
+			if Addr(k).Equals(a) {
+				return w.KeyName(k)
+			}
+		}
+	}
+	if MultiAddr(w.Multi).Equals(a) {
+		return "multi"
+	}
+	s := a.String()
+	if len(s) > 8 {
+		s = s[:8]
+	}
+	return s
 }
